@@ -271,6 +271,67 @@ def replay_limit_run(sql, fix):
     return rp
 
 
+# ---------------------------------------------------------------- files whose bytes do not fit the configured encoding
+def _encoding_case(c_or_cex, get):
+    from harness import c11
+    ch = get("character", list(c11.CHARS))
+    fe = get("file_written_in", c11.FILE_ENCODINGS)
+    ce = get("configured_encoding", c11.CONF_ENCODINGS + ["ascii", "utf-32"])
+    fix = get("fix_mode", [False, True])
+    case = c11._roundtrip_case(ch, fe, ce, "comment", "\n")
+    return ch, fe, ce, fix, case
+
+
+def _lint_bytes(data, ce, fix):
+    import os
+    import shutil
+    import tempfile
+    d = tempfile.mkdtemp(prefix="c04_")
+    try:
+        p = os.path.join(d, "f.sql")
+        open(p, "wb").write(data)
+        lin = Linter(config=FluffConfig(overrides={"dialect": "ansi", "rules": "LT01", "encoding": ce}))
+        return lin.lint_paths((p,), fix=fix, apply_fixes=fix)   # REAL: must return whatever the bytes are
+    finally:
+        shutil.rmtree(d, ignore_errors=True)
+
+
+def make_encoding_mismatch():
+    def factory(excluded=frozenset()):
+        lmod.linter_logger = NullLogger()
+
+        def harness(c):
+            from harness import c11
+            from symlite.core import Abort
+            ch, fe, ce, fix, case = _encoding_case(c, lambda n, alts: choose(c, n, alts))
+            if case is None:
+                raise Abort()
+            import logging
+            logging.disable(logging.CRITICAL)
+            try:
+                _lint_bytes(case[2], ce, fix)
+            finally:
+                logging.disable(logging.NOTSET)
+            if not c11._decodable(case[2], ce):
+                c.witness("bytes_do_not_fit_the_encoding")
+            else:
+                c.witness("decodable")
+            return True
+        return harness
+    return factory
+
+
+def replay_encoding_mismatch(cex):
+    ch, fe, ce, fix, case = _encoding_case(cex, lambda n, alts: alts[int(cex.get(n, 0))])
+    if case is None:
+        return None
+    try:
+        _lint_bytes(case[2], ce, fix)
+    except Exception as e:
+        return f"lint_paths(fix={fix}) on a file holding {case[2]!r} with encoding = {ce} raises {type(e).__name__}: {str(e)[:80]}"
+    return None
+
+
 # ---------------------------------------------------------------- lint_parsed over variants that did / did not parse
 def make_variants():
     def factory(excluded=frozenset()):
@@ -309,6 +370,12 @@ def units(tier, seed):
              witnesses_required=["limit_reported_as_PRS", "within_limit"], sharded=True, timeout_s=900)
         for label, sql in LIMIT_SQL.items() for fix in ([True] if tier == "quick" else [True, False])
     ] + [
+        Unit(name="c04.file_bytes_vs_configured_encoding", functions=["sqlfluff.core.linter.linter.Linter.load_raw_file_and_config", "Linter.lint_paths",
+                                                                      "sqlfluff.core.linter.runner.SequentialRunner.run"],
+             bounds={"character in the file": "ascii / é / € / ÿ / 中", "file written in": "utf-8, utf-8-sig, latin-1, utf-16",
+                     "configured encoding": "utf-8, utf-8-sig, latin-1, utf-16, ascii, utf-32", "mode": "lint / fix"},
+             make=make_encoding_mismatch(), replay=replay_encoding_mismatch, stubs=["none: a real file per explored path"],
+             witnesses_required=["bytes_do_not_fit_the_encoding", "decodable"], sharded=True, timeout_s=600),
         Unit(name="c04.lint_parsed_variants", functions=["sqlfluff.core.linter.linter.Linter.lint_parsed", "ParsedString.root_variant"],
              bounds={"rendering variants": "2-3 (real jinja if/else file)", "each variant": "parsed / fatal parse failure (no tree)", "mode": "lint / fix"},
              make=make_variants(), replay="concrete", stubs=["none beyond replacing a variant's tree by None"],
